@@ -512,6 +512,10 @@ class Ctx:
         # (tools/consts.py); the `consts_tie*` theorems are then re-checked against it
         import consts
         consts.regen(self)
+        # second kind of tie: small pure functions are TRANSLATED from the C++ source (tools/cxx2lean.py ->
+        # Osmium/Generated/Src.lean); the `src_tie_*` theorems are then re-checked against the new text
+        import cxx2lean
+        cxx2lean.regen(self)
         ok, out = self.lean_build(exes=exes, modules=modules)
         if ok:
             ok = self.lean_audit()
